@@ -53,11 +53,15 @@ def run(session: dict, seams: typing.Any) -> typing.List[dict]:
     lctx = LanguageContextBuilder(include_experimental_languages=True).set_target_language(session["lang"]).create()
     types = pydsdl.read_namespace(root_dir, lookups, allow_unregulated_fixed_port_id=True)
     ns = build_namespace_tree(types, root_dir, out_dir, lctx)
-    gen, sgen = _make_generators(session, ns)
+    # two pairs of generator objects over the same tree may be alive at once (a caller that keeps one pair per option set);
+    # a step names the pair it uses (default: the first)
+    pairs = [_make_generators(session, ns), _make_generators(session, ns)]
     results = []  # type: typing.List[dict]
     for si, step in enumerate(session["steps"]):
         k = step["k"]
         rec = {"k": k, "i": si}  # type: typing.Dict[str, typing.Any]
+        pi = int(step.get("pair", 0)) % 2
+        gen, sgen = pairs[pi]
         if k in ("gen", "dry"):
             rec["before"] = _snap(seams, out_dir)
             dry = k == "dry"
@@ -91,7 +95,7 @@ def run(session: dict, seams: typing.Any) -> typing.List[dict]:
             except Exception as ex:  # pylint: disable=broad-except
                 rec["status"] = "exc:%s" % type(ex).__name__
         elif k == "new_generators":
-            gen, sgen = _make_generators(session, ns)
+            pairs[pi] = _make_generators(session, ns)
             rec["status"] = "ok"
         else:
             was = seams.enabled
